@@ -30,6 +30,7 @@ LEVEL_TEXT = ("Generated importable modules (functions, async functions, classes
               "bound as class attributes) are collected with analysis='static' and 'dynamic' in the styles auto, google and "
               "freeform; the sorted (identifier, doctest source) lists must be equal and both must equal the generator's "
               "inventory. Randomised differential exploration with shrinking.")
+LEVEL_ADDED = ('A sixth of the files are saved with a UTF-8 byte order mark, a sixth with CRLF line ends.')
 LEVEL_NOTE = ("Trusted: the generator's inventory as tie-breaker; CPython's import of the generated module. Excluded because "
               "Python semantics, not xdoctest, make the two views differ: aliases (g = f), decorators without wraps, setters "
               "under a different name, definitions in branches that do not run, names deleted after definition, docstrings "
